@@ -32,6 +32,7 @@ func (s constSet) list() []string {
 }
 
 func typeNameOf(t types.Type) string {
+	t = types.Unalias(t)
 	if n, ok := t.(*types.Named); ok {
 		return n.Obj().Name()
 	}
